@@ -22,7 +22,7 @@ import (
 
 var sizes = []int{0, 1, 4095, 4096, 4097, 3*4096 + 1}
 var priors = []string{"absent", "shorter", "equal", "longer"}
-var behaviours = []string{"ok-1", "ok-2", "ok-many", "fail@0", "fail@1", "fail@half", "fail@size-1", "fail@size", "cancelled"}
+var behaviours = []string{"ok-1", "ok-2", "ok-many", "fail@0", "fail@1", "fail@half", "fail@size-1", "fail@size", "cancelled", "ok-remove-mid"}
 var kinds = []string{index.ItemKindSnapshot, index.ItemKindSegment}
 var loaders = []string{"mmap", "nommap"}
 
@@ -37,6 +37,7 @@ var hookLog []hookEv
 type itemWriter struct {
 	data      []byte
 	behaviour string
+	mid       func() // ok-remove-mid: called between the two halves
 }
 
 var errItem = errors.New("item writer failed")
@@ -61,10 +62,13 @@ func (iw *itemWriter) WriteTo(w io.Writer, closeCh chan struct{}) (int64, error)
 				return written, err
 			}
 		}
-	case "ok-2":
+	case "ok-2", "ok-remove-mid":
 		h := len(d) / 2
 		if err := write(d[:h]); err != nil {
 			return written, err
+		}
+		if iw.mid != nil {
+			iw.mid()
 		}
 		if err := write(d[h:]); err != nil {
 			return written, err
@@ -174,13 +178,28 @@ func eval(idx int64, _ string) *explore.Result {
 	os.VerifHook = func(op string, f *os.File, n int64) {
 		hookLog = append(hookLog, hookEv{op, f.Name(), n})
 	}
-	perr := dir.Persist(kind, id, &itemWriter{data: data, behaviour: beh}, closeCh)
+	iw := &itemWriter{data: data, behaviour: beh}
+	var rmErr error
+	if beh == "ok-remove-mid" {
+		// somebody removes the item while its Persist is in progress (a second directory object on the
+		// same path, as a concurrent clean-up would use): whatever Remove answers, a Persist that
+		// reports success must leave the file with exactly the bytes written
+		iw.mid = func() { rmErr = index.NewFileSystemDirectory(root).Remove(kind, id) }
+	}
+	perr := dir.Persist(kind, id, iw, closeCh)
 	os.VerifHook = nil
 	log := append([]hookEv(nil), hookLog...)
 	wantOK := strings.HasPrefix(beh, "ok")
+	if beh == "ok-remove-mid" && perr != nil {
+		// acceptable only as a clean failure
+		wantOK = false
+	}
 	if wantOK {
 		if perr != nil {
 			return fail("Persist failed although the item writer succeeded: %v", perr)
+		}
+		if beh == "ok-remove-mid" {
+			res.Outcome += fmt.Sprintf(" remove-during-persist=%v", rmErr != nil)
 		}
 		got, err := os.ReadFile(path)
 		if err != nil {
@@ -261,12 +280,13 @@ func firstDiff(a, b []byte) int {
 func main() {
 	explore.RegisterEnum("c13", total, eval)
 	explore.RegisterEnum("c13-items", itemsTotal, itemsEval)
+	explore.RegisterEnum("c13-ids", idsTotal, idsEval)
 	explore.WorkerMain()
 	c := checkmain.New("C13")
 	if v := c.IsReplay(); v != nil {
 		c.RunReplay(v)
 	}
-	c.Rule = "full grid: item size {0,1,4095,4096,4097,12289} x prior file {absent,shorter,equal,longer} x item writer {1/2/many chunks, error after k bytes for k in {0,1,size/2,size-1,size}, cancelled} x kind {.snp,.seg}; every case is distinct and non-trivial (each exercises Persist once and judges bytes, sync order or residue); plus the item writers bluge itself uses (snapshots of 6 bytes to 6 KB, ice v1/v2 segments, ice v1/v2 mergers) with the storage refusing bytes after k, for every k (items <= 300 bytes) or a structural set of k"
+	c.Rule = "full grid: item size {0,1,4095,4096,4097,12289} x prior file {absent,shorter,equal,longer} x item writer {1/2/many chunks, error after k bytes for k in {0,1,size/2,size-1,size}, cancelled, a Remove of the same item issued between two chunks} x kind {.snp,.seg}; every case is distinct and non-trivial (each exercises Persist once and judges bytes, sync order or residue); plus the item writers bluge itself uses (snapshots of 6 bytes to 6 KB, ice v1/v2 segments, ice v1/v2 mergers) with the storage refusing bytes after k, for every k (items <= 300 bytes) or a structural set of k; plus every ordered pair of distinct identifiers from {0,1,7,2^48-1,2^48,2^48+7,2^52+1,2^63,2^64-1} x kind: two items persisted one after the other, each must load back exactly, both are listed, removing one leaves the other"
 	c.Explanation = "exhaustive enumeration of the stated grid on the real FileSystemDirectory; os.File.Write and os.File.Sync are observed through an overlay of package os, so 'a flush was issued after the last byte and before success' is decided on the actual call sequence"
 	c.Assumptions = []string{
 		"fsync of the file is what the property demands; durability of the directory entry is not checked",
@@ -275,6 +295,8 @@ func main() {
 	st := explore.Enumerate(explore.EnumConfig{Name: "c13", InProc: true, MaxViol: 1000})
 	c.AddEnum(st)
 	st = explore.Enumerate(explore.EnumConfig{Name: "c13-items", InProc: true, MaxViol: 1000})
+	c.AddEnum(st)
+	st = explore.Enumerate(explore.EnumConfig{Name: "c13-ids", InProc: true, MaxViol: 1000})
 	c.AddEnum(st)
 	c.Finish()
 }
